@@ -98,7 +98,7 @@ def _split_directive(line):
 
 def parse_contract(lines, fnrec, unit_name):
     """returns dict: requires[list], ensures[list of Clause], decreases, loops{n:{...}}, hints[list], bodyrep[list]"""
-    c = dict(requires=[], ensures=[], decreases=None, loops={}, hints=[], bodyrep=[], recommends=[], fmtcat=[])
+    c = dict(requires=[], ensures=[], decreases=None, loops={}, hints=[], bodyrep=[], recommends=[], fmtcat=[], okassert=[])
     section = None
     cur = None
     for raw in lines:
@@ -117,7 +117,7 @@ def parse_contract(lines, fnrec, unit_name):
         m = re.match(r'^loop\s+(\d+)(.*)$', s)
         if m:
             section = 'loop'
-            cur = dict(invariant=[], decreases=None, iter=None, ensures=[], inv_except_break=[])
+            cur = dict(invariant=[], decreases=None, iter=None, ensures=[], inv_except_break=[], bodystart=[], before=[])
             kv = parse_kv(m.group(2).split())
             cur['iter'] = kv.get('iter')
             c['loops'][int(m.group(1))] = cur
@@ -128,6 +128,9 @@ def parse_contract(lines, fnrec, unit_name):
             section = 'hint'
             cur = dict(where=m.group(1), anchor=(m.group(2) or '""')[1:-1], nth=int((m.group(3) or '#1')[1:]), text=[])
             c['hints'].append(cur)
+            continue
+        if s == 'okassert':
+            section = 'okassert'; cur = None
             continue
         m = re.match(r'^fmtcat\s+(\*|".*")\s*$', s)
         if m:
@@ -153,6 +156,14 @@ def parse_contract(lines, fnrec, unit_name):
                     raise ExtractError('%s: ensures clause without [PROPS id] tag: %s' % (fnrec.name, s))
                 cur.text += '\n        ' + s
         elif section == 'loop':
+            m = re.match(r'^bodystart\s+(.*)$', s)
+            if m:
+                cur['bodystart'].append(m.group(1))
+                continue
+            m = re.match(r'^before\s+(.*)$', s)
+            if m:
+                cur['before'].append(m.group(1))
+                continue
             m = re.match(r'^(invariant|decreases|ensures|invariant_except_break)\s*(.*)$', s)
             if m:
                 sub = m.group(1)
@@ -170,6 +181,8 @@ def parse_contract(lines, fnrec, unit_name):
             cur[key].append(s.rstrip(','))
         elif section == 'hint':
             cur['text'].append(line)
+        elif section == 'okassert':
+            c['okassert'].append(line)
         else:
             raise ExtractError('%s: contract line outside a section: %s' % (fnrec.name, s))
     for cl in c['ensures']:
@@ -261,7 +274,16 @@ def emit_fn(asm, fnrec, sig, body, contract, ret_name):
                 ins += '\n        ensures\n' + ''.join('            %s,\n' % x for x in L['ensures'])
             if L['decreases']:
                 ins += '\n        decreases %s,\n' % L['decreases']
-            body = body[:ob] + ins + '    ' + body[ob:]
+            bs = ('\n' + '\n'.join(L['bodystart']) + '\n') if L.get('bodystart') else ''
+            body = body[:ob] + ins + '    {' + bs + body[ob + 1:]
+            if L.get('before'):
+                # ghost statements placed just before the loop statement (start of its line)
+                ls_ = body.rfind('\n', 0, kwpos) + 1
+                if body[ls_:kwpos].strip() == '':
+                    body = body[:ls_] + '\n'.join(L['before']) + '\n' + body[ls_:]
+                    kwpos += len('\n'.join(L['before'])) + 1
+                else:
+                    raise ExtractError('%s: loop %d is not at the start of a statement line (cannot place ghost snapshot)' % (fnrec.name, n))
             if L['iter'] and kw == 'for':
                 # for PAT in EXPR  ->  for PAT in it: EXPR
                 seg = body[kwpos:ob]
@@ -269,6 +291,15 @@ def emit_fn(asm, fnrec, sig, body, contract, ret_name):
                 if not mm:
                     raise ExtractError('for without in')
                 body = body[:kwpos + mm.end()] + L['iter'] + ': ' + body[kwpos + mm.end():]
+    if contract['okassert']:
+        txt = '  proof {\n' + '\n'.join(contract['okassert']) + '\n  }'
+        mbody = rsx.mask(body)
+        sites = [m_.start() for m_ in re.finditer(r'(?<![A-Za-z0-9_])(return\s+)?Ok\s*\(\s*(Self|MT\d{3}|[A-Z][A-Za-z0-9]*)\s*\{', mbody)]
+        if not sites:
+            raise ExtractError('%s: no `Ok(<struct> {` exit found for the injected exit assertion' % fnrec.name)
+        for pos in reversed(sites):
+            ls = body.rfind('\n', 0, pos) + 1
+            body = body[:ls] + txt + '\n' + body[ls:]
     for h in contract['hints']:
         try:
             body = insert_at_anchor(body, h['where'], h['anchor'], h['nth'], '\n'.join(h['text']))
@@ -394,6 +425,23 @@ def assemble(unit_path, repo=REPO):
             asm.add('// ---- end declared-assumption')
             asm.manual.append('declared assumption (unit stub): ' + reason)
             i = j + 1
+        elif d == 'fieldimpls':
+            import glob as _g
+            impls = set()
+            for ff in _g.glob(os.path.join(repo, 'src/fields/*.rs')):
+                sf = rsx.Source.get(ff)
+                for m_ in re.finditer(r'impl\s+SwiftField\s+for\s+([A-Za-z0-9_]+)', sf.masked):
+                    impls.add(m_.group(1))
+            names = sorted(n_ for n_ in getattr(asm, 'types_seen', set()) if n_ in impls)
+            idx = type_index(repo)
+            # type aliases of field enums (e.g. Field53 = Field53SenderCorrespondent) need no impl of their own
+            names = [n_ for n_ in names if idx.get(n_, ('', ''))[1] != 'type']
+            asm.add('// ---- declared-assumption: field parsers are abstract at message level (their contracts live in the fld_* units)')
+            for n_ in names:
+                asm.add('impl SwiftField for %s { uninterp spec fn parse_ok(v: Seq<char>) -> bool; uninterp spec fn parse_val(v: Seq<char>) -> Self; }' % n_)
+            asm.add('// ---- end declared-assumption')
+            asm.manual.append('declared assumption (unit stub): %d field types implement the abstract SwiftField contract' % len(names))
+            i += 1
         elif d == 'props':
             asm.unit_props |= set(toks[1:])
             i += 1
@@ -657,6 +705,13 @@ def assemble(unit_path, repo=REPO):
             for cname in getattr(asm, 'constfns', []):
                 body, k = re.subn(r'(?<![A-Za-z0-9_])((?:Self|[A-Z][A-Za-z0-9_]*)::' + re.escape(cname) + r')(?![A-Za-z0-9_(])', r'\1()', body)
                 rw.note('assoc-const-str-slice->fn call', k)
+            # single-file unit: items of the repository's modules live at the unit's root
+            pref = re.compile(r'(?<![A-Za-z0-9_:])crate::(?:errors|parser::utils|parser|fields::swift_utils|fields::field_utils|fields|messages|headers|traits|swift_message|parsed_message|swift_error_codes)::')
+            n_pref = len(pref.findall(sig)) + len(pref.findall(body))
+            if n_pref:
+                sig = pref.sub('', sig)
+                body = pref.sub('', body)
+                rw.note('crate::<module>:: path prefix dropped (single-file unit)', n_pref)
             n_cr = len(re.findall(r'crate::Result<', sig + body))
             if n_cr:
                 sig = sig.replace('crate::Result<', 'crate::cr::Result<')
@@ -664,10 +719,9 @@ def assemble(unit_path, repo=REPO):
                 rw.note('crate::Result->crate::cr::Result (alias module)', n_cr)
             if kv.get('sigrep'):
                 a_, b_ = kv['sigrep'].strip('"').split('=>')
-                if a_ not in sig:
-                    raise ExtractError('%s: sigrep anchor lost' % name)
-                sig = sig.replace(a_, b_)
-                asm.manual.append('%s: signature %r => %r' % (fnrec.key, a_, b_))
+                if a_ in sig:
+                    sig = sig.replace(a_, b_)
+                    asm.manual.append('%s: signature %r => %r' % (fnrec.key, a_, b_))
             if kv.get('vis'):
                 sig = re.sub(r'^(pub(\s*\([^)]*\))?\s+)?', kv['vis'] + ' ', sig.strip(), count=1)
             emit_fn(asm, fnrec, sig, body, contract, kv.get('ret', 'r'))
